@@ -179,6 +179,11 @@ func c13Stack(r *eng.Run) {
 				}
 				if ww.Buffered() == 0 && len(wire.Out) > 0 && midMessageWire(wire.Out) {
 					sendPing()
+					// Now and then several control frames in one gap.
+					for n := 0; n < 2 && r.T.Chance(sim.LCtrl, 1, 3); n++ {
+						sendPing()
+						r.Probe("several_control_frames_in_one_gap")
+					}
 				}
 			}
 		}
@@ -387,6 +392,11 @@ func c13Scripted(r *eng.Run) {
 	if frag {
 		if withPing {
 			frames = append(frames, mk(ref.OpPing, true, b, r.T.Int(sim.LLen, 10)))
+			if r.T.Chance(sim.LCtrl, 1, 3) {
+				// A second control frame in the same gap (no reserved bits).
+				frames = append(frames, mk(ref.OpPong, true, 0, r.T.Int(sim.LLen, 10)))
+				r.Probe("several_control_frames_in_one_gap")
+			}
 		}
 		frames = append(frames, mk(ref.OpCont, true, c, r.T.Int(sim.LLen, 20)))
 		if r.T.Chance(sim.LFault, 1, 6) {
@@ -567,8 +577,20 @@ func c13Scripted(r *eng.Run) {
 			r.Failf("rsv1_not_rejected", "frame %d (%s) with RSV1 on a control/continuation frame was accepted", badIdx, frameStr(frames[badIdx]))
 		}
 	}
-	for _, h := range interHdr {
-		want := b &^ clear2
+	var interSent []byte // reserved bits of the control frames between the fragments, in order
+	if frag {
+		for _, f := range frames[1:] {
+			if !ref.IsControl(f.Op) {
+				break
+			}
+			interSent = append(interSent, f.Rsv)
+		}
+	}
+	for i, h := range interHdr {
+		if i >= len(interSent) {
+			r.Failf("wrong_unit", "OnIntermediate was called %d times, %d control frames lie between the fragments", len(interHdr), len(interSent))
+		}
+		want := interSent[i] &^ clear2
 		if h.Rsv != want {
 			r.Failf("rsv_not_cleared", "intermediate control header rsv=%d, sent %d (RSV2/3 must be untouched)", h.Rsv, want)
 		}
